@@ -17,6 +17,9 @@ Ghost netlist values VF(x,l), VI(x,l) are defined along the op list (A1).  With 
 is proved to be carried by the two nested loops of level_eval_cpu (mixed form Inv(k+1) for lanes done / Inv(k) for lanes to do) and, with
 level_eval_cpu by contract, by the level loop of WaveSim.c_prop:  Inv(0) -> Inv(n): every line that is live at the end (captured) holds a
 well-formed waveform whose initial and final values are the Boolean netlist values of the initial and final input values.
+The same induction carries the static-timing window (C04): WIN[x][l] = every finite entry of the region lies in [LO(x), HI(x)], where the ghost bounds satisfy the
+window recurrence (LO(out) <= LO(in) + smallest line delay, HI(out) >= HI(in) + largest line delay: the definition of the window); the one-op step Q8 (stage 3 of wave_c)
+turns "operands inside their windows" into "output inside its window", hence Inv also gives WIN for every live slot.
 """
 import z3
 
@@ -46,7 +49,7 @@ def same(y, o):
 
 
 def ok(st, x, l):
-    return z3.And(st.heap['WOK'][x][l], st.heap['FIN'][x][l] == VF(x, l), st.heap['INI'][x][l] == VI(x, l))
+    return z3.And(st.heap['WOK'][x][l], st.heap['FIN'][x][l] == VF(x, l), st.heap['INI'][x][l] == VI(x, l), st.heap['WIN'][x][l])
 
 
 def hyps(k):
@@ -75,16 +78,19 @@ def eval_callee_comp(ex, st, args, kwargs, node):
     kk, s = to_int(k), to_int(sim)
     out, lut = OPSF(kk, 1), OPSF(kk, 0)
     ins = [OPSF(kk, c_) for c_ in range(2, 6)]
-    W0, F0, I0 = st.heap['WOK'], st.heap['FIN'], st.heap['INI']
+    W0, F0, I0, N0 = st.heap['WOK'], st.heap['FIN'], st.heap['INI'], st.heap['WIN']
     for j, i in enumerate(ins):
         ex.prove(st, f'requires _wave_eval: operand {j} holds a well-formed waveform in this lane', W0[i][s], node)
         ex.prove(st, f'requires _wave_eval: the output region does not overlap the region of operand {j}', disj(i, out), node)
     n_ = next(ex.fresh)
-    W1, F1, I1 = (z3.Const(f'{nm}!{n_}', A2B) for nm in ('WOK', 'FIN', 'INI'))
+    W1, F1, I1, N1 = (z3.Const(f'{nm}!{n_}', A2B) for nm in ('WOK', 'FIN', 'INI', 'WIN'))
     y, l = z3.Ints('y l')
-    st.assume(SBool(z3.ForAll([y, l], z3.Implies(z3.Or(l != s, disj(y, out)), z3.And(W1[y][l] == W0[y][l], F1[y][l] == F0[y][l], I1[y][l] == I0[y][l])))))
-    st.assume(SBool(z3.ForAll([y], z3.Implies(same(y, out), z3.And(W1[y][s], F1[y][s] == LB(lut, *[F0[i][s] for i in ins]), I1[y][s] == LB(lut, *[I0[i][s] for i in ins]))))))
-    st.heap['WOK'], st.heap['FIN'], st.heap['INI'] = W1, F1, I1
+    st.assume(SBool(z3.ForAll([y, l], z3.Implies(z3.Or(l != s, disj(y, out)), z3.And(W1[y][l] == W0[y][l], F1[y][l] == F0[y][l], I1[y][l] == I0[y][l], N1[y][l] == N0[y][l])))))
+    # Q8 (one-op static-timing step, proved in wave_c stage 3) with the window recurrence  LO(out) <= min_c(LO(in_c) + dmin_c), HI(out) >= max_c(HI(in_c) + dmax_c)
+    # (the definition of the static-timing window): operands inside their windows  =>  the output inside its window
+    st.assume(SBool(z3.ForAll([y], z3.Implies(same(y, out), z3.And(W1[y][s], F1[y][s] == LB(lut, *[F0[i][s] for i in ins]), I1[y][s] == LB(lut, *[I0[i][s] for i in ins]),
+                                                                  z3.Implies(z3.And(*[N0[i][s] for i in ins]), N1[y][s]))))))
+    st.heap['WOK'], st.heap['FIN'], st.heap['INI'], st.heap['WIN'] = W1, F1, I1, N1
     C = st.heap['calls']
     st.heap['calls'] = z3.Store(C, kk, z3.Store(C[kk], s, C[kk][s] + 1))
     return (SInt(NR(kk, s)), SInt(NF(kk, s)))
@@ -104,7 +110,7 @@ def level_comp_config():
         st.assume(SBool(z3.ForAll([k], z3.Implies(z3.And(0 <= k, k < nops.e), OPSF(k, 6) < alen.e))))
         st.heap['abuf'] = z3.Const('abuf0', I2)
         st.heap['calls'] = z3.K(I, z3.K(I, z3.IntVal(0)))
-        for nm in ('WOK', 'FIN', 'INI'):
+        for nm in ('WOK', 'FIN', 'INI', 'WIN'):
             st.heap[nm] = z3.Const(nm + '0', A2B)
         st.env.update(ops=Table2(OPSF, nops, 9), op_start=a, op_stop=b_, c=Opaque('c'), c_locs=Opaque('c_locs'), c_caps=Opaque('c_caps'), abuf=Abuf(),
                       sim_start=s0, sim_stop=s1, delays=Opaque('delays'), simctl_int=SimCtl(), seed=ex.fv('seed', 'int'))
@@ -141,7 +147,7 @@ def level_comp_config():
         x, l = z3.Ints('x l')
         ex.prove(st, 'mustfail:every final value is 0', SBool(z3.ForAll([x, l], z3.Implies(z3.And(g['s0'] <= l, l < g['s1'], LIVE(x, g['b'])), z3.Not(st.heap['FIN'][x][l])))),
                  ex.fn, expect='refuted')
-    mods = ['abuf', 'calls', 'WOK', 'FIN', 'INI']
+    mods = ['abuf', 'calls', 'WOK', 'FIN', 'INI', 'WIN']
     contract = {'post': post, 'loop_match': {0: ('range(op_start, op_stop)', 0), 1: ('range(sim_start, sim_stop)', None)},
                 'loops': {0: {'inv': outer_inv, 'assume': outer_assume, 'modifies': mods, 'kinds': {'op': 'keep', 'a_loc': 'int', 'a_wr': 'int', 'a_wf': 'int', 'nrise': 'int', 'nfall': 'int'}},
                           1: {'inv': inner_inv, 'modifies': mods, 'kinds': {'a_loc': 'int', 'a_wr': 'int', 'a_wf': 'int', 'nrise': 'int', 'nfall': 'int'}}}}
@@ -172,7 +178,7 @@ def cprop_config(sims_arg):
         st.assume(SBool(z3.And(ln >= 1, L[0] == 0, T[ln - 1] == n.e)))
         st.assume(SBool(z3.ForAll([l], z3.Implies(z3.And(0 <= l, l < ln - 1), z3.And(T[l] == L[l + 1], L[l] < L[l + 1])))))
         st.assume(SBool(z3.ForAll([l], z3.Implies(z3.And(0 <= l, l < ln), z3.And(L[l] >= 0, L[l] <= n.e, T[l] >= L[l], T[l] <= n.e)))))
-        for nm in ('WOK', 'FIN', 'INI'):
+        for nm in ('WOK', 'FIN', 'INI', 'WIN'):
             st.heap[nm] = z3.Const(nm + '0', A2B)
         selfo = SObj.new(st, 'self', ops=Table2(OPSF, n, 9), c=Opaque('c'), c_locs=Opaque('c_locs'), c_caps=Opaque('c_caps'), abuf=Opaque('abuf'),
                          delays=Opaque('delays'), simctl_int=Opaque('simctl_int'), sims=sims, level_starts=ls, level_stops=lt)
@@ -205,7 +211,7 @@ def cprop_config(sims_arg):
         ex.prove(st, 'mustfail:every final value is 0', SBool(z3.ForAll([x, l], z3.Implies(z3.And(0 <= l, l < g['eff'], LIVE(x, g['n'])), z3.Not(st.heap['FIN'][x][l])))),
                  ex.fn, expect='refuted')
 
-    contract = {'post': post, 'loop_match': {0: ('zip(', 0)}, 'loops': {0: {'inv': inv, 'modifies': ['WOK', 'FIN', 'INI']}}}
+    contract = {'post': post, 'loop_match': {0: ('zip(', 0)}, 'loops': {0: {'inv': inv, 'modifies': ['WOK', 'FIN', 'INI', 'WIN']}}}
     return Config(f'any level partition, sims={sims_arg}', contract, setup, None)
 
 
@@ -224,11 +230,11 @@ def cprop_prims(globs):
             kk = z3.Int('kk')
             # the per-op hypotheses A1-A4w are assumed for every op of the range (they are properties of the op list and the memory map)
         n_ = next(ex.fresh)
-        W1, F1, I1 = (z3.Const(f'{nm}!{n_}', A2B) for nm in ('WOK', 'FIN', 'INI'))
-        W0, F0, I0 = st.heap['WOK'], st.heap['FIN'], st.heap['INI']
+        W1, F1, I1, N1 = (z3.Const(f'{nm}!{n_}', A2B) for nm in ('WOK', 'FIN', 'INI', 'WIN'))
+        W0, F0, I0, N0 = st.heap['WOK'], st.heap['FIN'], st.heap['INI'], st.heap['WIN']
         y, l = z3.Ints('y l')
-        st.assume(SBool(z3.ForAll([y, l], z3.Implies(z3.Or(l < s0, l >= s1), z3.And(W1[y][l] == W0[y][l], F1[y][l] == F0[y][l], I1[y][l] == I0[y][l])))))
-        st.heap['WOK'], st.heap['FIN'], st.heap['INI'] = W1, F1, I1
+        st.assume(SBool(z3.ForAll([y, l], z3.Implies(z3.Or(l < s0, l >= s1), z3.And(W1[y][l] == W0[y][l], F1[y][l] == F0[y][l], I1[y][l] == I0[y][l], N1[y][l] == N0[y][l])))))
+        st.heap['WOK'], st.heap['FIN'], st.heap['INI'], st.heap['WIN'] = W1, F1, I1, N1
         st.assume(SBool(inv_at(st, b_, s0, s1)))
         return None
     return {globs['level_eval_cpu']: level_eval_model}
